@@ -49,7 +49,7 @@ package util
 //@   loop 1 invariant forall k int :: 0 <= k && k < len($seq) ==> inHier($seq[k], code)
 //@   loop 2 invariant forall k int :: 0 <= k && k < len($seq) ==> inHier($seq[k], code)
 //@   loop 2 invariant forall k int, m int :: 0 <= k && k < $i ==> !covers(s, m, $seq[k], pos)
-//@   loop 3 invariant forall k int :: 0 <= k && k < $i ==> !(s.Markers[indices[k]].StartPos <= pos && pos <= s.Markers[indices[k]].EndPos)
+//@   loop 3 invariant forall k int :: 0 <= k && k < $i ==> !(s.Markers[$seq[k]].StartPos <= pos && pos <= s.Markers[$seq[k]].EndPos)
 
 //@ func IgnoreSet.AddModuleIgnore
 //@   props C16 C12 C10 C08 C11
@@ -147,7 +147,7 @@ package util
 //@   props C01 C02 C03 C09 C10 C11
 //@   ensures result == contains(tarList(tar, pkgPath, expectedType), associatedName)
 //@   assigns nothing
-//@   loop 1 invariant forall k int :: 0 <= k && k < $i ==> items[k] != associatedName
+//@   loop 1 invariant forall k int :: 0 <= k && k < $i ==> $seq[k] != associatedName
 
 //@ func TypeAssociationRegistry.GetAssociated
 //@   props C02 C10
